@@ -79,6 +79,17 @@ func verifC17Expect(e *verifE1, balA, balB, commitFee, fee int64, payer int) (ou
 	return v[0], v[1], true
 }
 
+// verifC17Shape lifts the non-opener's balance to a dust boundary.
+func verifC17Shape(e *verifE1, r *verifRng) bool {
+	thr := []int64{e.p.DustA, e.p.DustB, 294, 330, 354, 546, 540}
+	T := thr[r.Intn(len(thr))] + int64(r.Intn(3)) - 1
+	rem := []uint64{0, 0, 1, 999, uint64(r.Intn(1000))}[r.Intn(5)]
+	if T < 1 {
+		return false
+	}
+	return e.shapeNonOpener(lnwire.MilliSatoshi(uint64(T)*1000 + rem))
+}
+
 func verifC17Trials(e *verifE1, i int) {
 	vc := e.vc
 	r := e.r
@@ -106,15 +117,6 @@ func verifC17Trials(e *verifE1, i int) {
 		int64(r.U64n(uint64(openerOwned) + 2))}
 	nTrials := 6
 	for t := 0; t < nTrials && !e.ended; t++ {
-		fee := fees[r.Intn(len(fees))]
-		if fee < 0 {
-			fee = 0
-		}
-		sa := verifC17Script(r, r.Intn(3))
-		sb := verifC17Script(r, r.Intn(3))
-		if r.Chance(1, 6) {
-			sb = sa
-		}
 		payerOpt := 0
 		if r.Chance(1, 5) {
 			payerOpt = 1 + r.Intn(2)
@@ -124,6 +126,27 @@ func verifC17Trials(e *verifE1, i int) {
 			payer = 0
 		} else if payerOpt == 2 {
 			payer = 1
+		}
+		fee := fees[r.Intn(len(fees))]
+		if r.Chance(1, 3) {
+			// the payer's output exactly at / one off its dust limit,
+			// and the payer owning exactly / one off the fee
+			owned := []int64{balA, balB}[payer]
+			if payer == oi {
+				owned = openerOwned
+			}
+			pd := []int64{e.p.DustA, e.p.DustB}[payer]
+			pf := []int64{owned - pd - 1, owned - pd, owned - pd + 1, owned - 1, owned, owned + 1}
+			fee = pf[r.Intn(len(pf))]
+			vc.Count("payer_edge_fee_trials", 1)
+		}
+		if fee < 0 {
+			fee = 0
+		}
+		sa := verifC17Script(r, r.Intn(3))
+		sb := verifC17Script(r, r.Intn(3))
+		if r.Chance(1, 6) {
+			sb = sa
 		}
 		trial := verifC17Trial{Fee: fee, ScriptA: verifHex(sa), ScriptB: verifHex(sb), PayerOpt: payerOpt}
 		vc.Count("trials", 1)
@@ -311,7 +334,15 @@ func verifC17Case(vc *verifCtx, i int) {
 	r := vc.Rng(i)
 	p := verifE1GenParams(r)
 	nActions := 15 + r.Intn(40)
-	vc.Case(i, map[string]any{"params": p, "actions": nActions})
+	// shaping cases (a quarter): the non-opener starts with nothing and
+	// every HTLC of the schedule is failed, so that its balance can then
+	// be lifted to a chosen dust boundary (verifC17Shape).
+	shape := i%4 == 1
+	if shape {
+		p.PushPct = 0
+		nActions = 4 + r.Intn(25)
+	}
+	vc.Case(i, map[string]any{"params": p, "actions": nActions, "shape": shape})
 	e, err := verifE1New(vc, r, p)
 	if err != nil {
 		vc.Count("setup_skipped", 1)
@@ -320,6 +351,7 @@ func verifC17Case(vc *verifCtx, i int) {
 	}
 	defer e.Close()
 	e.noPendingFate = true
+	e.failOnlyFate = shape
 	e.oracles = map[string]bool{"tx_exact": false}
 	// trials on the pristine channel as well
 	if r.Chance(1, 5) {
@@ -339,6 +371,17 @@ func verifC17Case(vc *verifCtx, i int) {
 	}
 	if !e.ended {
 		e.checkQuiescent()
+	}
+	// balance shaping: in the shaping cases lift the non-opener's
+	// balance to a dust threshold -1/0/+1 sat (its own dust limit, the
+	// peer's, and the standard script dust values), with any sub-satoshi
+	// remainder, so that "omitted below the owner's dust limit" is judged
+	// at the boundary for the party that does not pay the fee too.
+	if !e.ended && shape {
+		if verifC17Shape(e, r) {
+			vc.Count("shaped_nonopener_balance", 1)
+			e.checkQuiescent()
+		}
 	}
 	if !e.ended {
 		verifC17Trials(e, i)
